@@ -287,6 +287,14 @@ func runtimeCell(cause, load string) cellResult {
 		// the correlator rejects the first login (pid 0) and the audit worker stops with that error while
 		// the sshd worker already holds the next login and has nobody to hand it to
 		_, _ = sw.WriteString("0 Accepted password for alice from 1.2.3.4 port 5 ssh2\n4711 Accepted password for bob from 1.2.3.4 port 6 ssh2\n4712 Accepted password for carol from 1.2.3.4 port 7 ssh2\n")
+	case "output-fifo-reader-leaves-while-both-workers-write":
+		// (stalled-output load only) the audit worker is inside write(2) on the full events FIFO; the sshd worker
+		// joins it there with an event of its own; then the consumer goes away for good: both writes fail (EPIPE)
+		// at the same moment, and the daemon ends
+		_, _ = sw.WriteString("4711 Failed password for bob from 1.2.3.4 port 5 ssh2\n")
+		time.Sleep(300 * time.Millisecond)
+		t0 = time.Now()
+		outReader.Close()
 	case "output-dev-full", "output-fifo-reader-left":
 		_, _ = sw.WriteString("4711 Failed password for bob from 1.2.3.4 port 5 ssh2\n")
 	default:
@@ -630,7 +638,7 @@ func runC08(run *mc.Run) int {
 	// the consumer is stopped for good (the events output is a FIFO nobody drains): line buffer and
 	// audit pipe are full and stay full; causes that do not depend on reading further audit lines
 	judge(runtimeCell("sshd-writer-dies-mid-line-and-another-connects", "idle"))
-	for _, c := range []string{"sigterm", "sshd-pipe-eof", "sigint", "sshd-writer-dies-mid-line-and-another-connects"} {
+	for _, c := range []string{"sigterm", "sshd-pipe-eof", "sigint", "sshd-writer-dies-mid-line-and-another-connects", "output-fifo-reader-leaves-while-both-workers-write"} {
 		if !run.Thorough() && c == "sigint" {
 			continue
 		}
@@ -674,7 +682,7 @@ func runC08(run *mc.Run) int {
 		}
 	}
 	cov := mc.Coverage{Level: "fault_enumeration", Evaluations: len(results), Distinct: len(results) - inconclusive, Exhaustive: inconclusive == 0, Samples: samples,
-		Rule:  "fault enumeration on the built binary over real FIFOs: 10 run-time causes (sshd pipe EOF, sshd writer dying mid-line with a replacement writer connecting 300 ms later (idle and stalled-output only), audit pipe EOF, unparsable audit line, a LOGIN record whose pid is not a number, a login the correlator rejects while the next login is already buffered, output /dev/full (the failing write being the event of a failed password and of each of the 16 sshd message forms in turn), output FIFO whose reader left, SIGTERM, SIGINT) x load {idle, idle-after-saturation (SIGTERM, sshd pipe EOF; thorough also SIGINT, /dev/full): the audit pipe was kept full, then the flood ended and the daemon caught up with its writers still connected, stalled-output: the events FIFO is never drained so the line buffer and the audit pipe stay full (write end accepts no byte for >=300 ms), saturated: a writer keeps the audit FIFO full - single-record events written at full speed, >=8 MB written and the pipe found full >=50 times - flow equilibrium with the 10000-slot line buffer full}, 2 cells with -metrics -healthz -audit-metrics -log-level debug (every optional worker running) and an HTTP client stalled mid-response (pipelined /metrics requests, never read) x {audit pipe EOF, SIGTERM}, SIGTERM before any writer has opened the pipes (also with the audit pipe's path removed / re-created meanwhile) and while the daemon still waits for its events output to appear, SIGINT / SIGTERM to a daemon that was started with that signal ignored (inherited disposition), 6 start-up causes (sshd/audit path is a regular file, a directory, missing); oracle: the process exits within 10 s of the cause, non-zero for failures. A cell whose set-up could not be reached is inconclusive (exit 0, exhaustive=false). distinct_nontrivial = conclusive cells",
+		Rule:  "fault enumeration on the built binary over real FIFOs: 10 run-time causes (sshd pipe EOF, sshd writer dying mid-line with a replacement writer connecting 300 ms later (idle and stalled-output only), audit pipe EOF, unparsable audit line, a LOGIN record whose pid is not a number, a login the correlator rejects while the next login is already buffered, output /dev/full (the failing write being the event of a failed password and of each of the 16 sshd message forms in turn), output FIFO whose reader left, SIGTERM, SIGINT) x load {idle, idle-after-saturation (SIGTERM, sshd pipe EOF; thorough also SIGINT, /dev/full): the audit pipe was kept full, then the flood ended and the daemon caught up with its writers still connected, stalled-output (also: the consumer leaves while both workers are inside write(2)): the events FIFO is never drained so the line buffer and the audit pipe stay full (write end accepts no byte for >=300 ms), saturated: a writer keeps the audit FIFO full - single-record events written at full speed, >=8 MB written and the pipe found full >=50 times - flow equilibrium with the 10000-slot line buffer full}, 2 cells with -metrics -healthz -audit-metrics -log-level debug (every optional worker running) and an HTTP client stalled mid-response (pipelined /metrics requests, never read) x {audit pipe EOF, SIGTERM}, SIGTERM before any writer has opened the pipes (also with the audit pipe's path removed / re-created meanwhile) and while the daemon still waits for its events output to appear, SIGINT / SIGTERM to a daemon that was started with that signal ignored (inherited disposition), 6 start-up causes (sshd/audit path is a regular file, a directory, missing); oracle: the process exits within 10 s of the cause, non-zero for failures. A cell whose set-up could not be reached is inconclusive (exit 0, exhaustive=false). distinct_nontrivial = conclusive cells",
 		Extra: map[string]any{"cells": results, "saturated_cells_reached": sat, "inconclusive": inconclusive, "bound_s": exitBound.Seconds()}}
 	cov.Assumptions = []string{"the OS scheduler is not controlled; 10 s is the property's bounded time against observed millisecond latencies",
 		"the decisive blocking state (line buffer full, consumer gone) is also decided deterministically by C13's bubble cells"}
